@@ -487,6 +487,22 @@ def schemaOk (S : Schema) : Bool := S.classes.all classOk
 
 def SchemaOk (S : Schema) : Prop := schemaOk S = true
 
+/-- The constructor default of a field is a value of the field's own type (needed only for
+"whatever `_from_dict` builds is well-formed", not for the round trip). -/
+def defaultFits (f : FieldSpec) : Bool :=
+  match f.container, f.default with
+  | .none, .str _ => f.dtype == .str
+  | .none, .required => true
+  | .none, _ => false
+  | _, _ => true
+
+def schemaOkStrict (S : Schema) : Bool :=
+  schemaOk S && S.classes.all (fun cs => cs.fields.all defaultFits)
+
+def SchemaOkStrict (S : Schema) : Prop := schemaOkStrict S = true
+
+instance (S : Schema) : Decidable (SchemaOkStrict S) := inferInstanceAs (Decidable (_ = true))
+
 instance (S : Schema) : Decidable (SchemaOk S) := inferInstanceAs (Decidable (_ = true))
 
 /-! ## `Message.has_field` -/
